@@ -214,8 +214,8 @@ impl Check for C20 {
     fn parts(&self, tier: Tier) -> Vec<Part> {
         vec![
             Part { name: "enum", kind: PartKind::Enum { units: 84 + 5 } },
-            Part { name: "random", kind: PartKind::Random { cases: tier.pick(100_000, 2_000_000), main: 450, ops: 0, oplen: 0, sched: 0 } },
-            Part { name: "pty", kind: PartKind::Random { cases: tier.pick(16, 160), main: 200, ops: 0, oplen: 0, sched: 0 } },
+            Part { name: "random", kind: PartKind::Random { cases: tier.pick(1_000_000, 10_000_000), main: 450, ops: 0, oplen: 0, sched: 0 } },
+            Part { name: "pty", kind: PartKind::Random { cases: tier.pick(32, 320), main: 200, ops: 0, oplen: 0, sched: 0 } },
             Part { name: "pty-long", kind: PartKind::Random { cases: tier.pick(0, 16), main: 200, ops: 0, oplen: 0, sched: 0 } },
         ]
     }
